@@ -1,0 +1,43 @@
+//! Verification instrumentation, only compiled with the `verif-hooks` feature.
+//!
+//! Counts how many day schedules the current thread evaluated and optionally
+//! bounds that number, which gives a deterministic measure of the work done by
+//! a public call.
+
+use std::cell::Cell;
+
+/// Marker found in the panic message raised when the limit is exceeded.
+pub const LIMIT_MARKER: &str = "verif-hooks: schedule limit exceeded";
+
+thread_local! {
+    static COUNT: Cell<u64> = const { Cell::new(0) };
+    static LIMIT: Cell<Option<u64>> = const { Cell::new(None) };
+}
+
+/// Reset the counter of the current thread.
+pub fn reset() {
+    COUNT.with(|c| c.set(0));
+}
+
+/// Number of day schedules evaluated by the current thread since last reset.
+pub fn count() -> u64 {
+    COUNT.with(|c| c.get())
+}
+
+/// Set the maximal value the counter may reach before panicking.
+pub fn set_limit(limit: Option<u64>) {
+    LIMIT.with(|l| l.set(limit));
+}
+
+pub(crate) fn notify_schedule() {
+    let count = COUNT.with(|c| {
+        c.set(c.get() + 1);
+        c.get()
+    });
+
+    if let Some(limit) = LIMIT.with(|l| l.get()) {
+        if count > limit {
+            panic!("{LIMIT_MARKER} ({limit})");
+        }
+    }
+}
